@@ -125,8 +125,13 @@ def arg_reduction(x, chunk, combine, agg, axis=None, keepdims=False, split_every
                 "  x.compute_chunk_sizes()"
             )
 
-    # Create the ArgChunk expression for the initial chunk step
-    tmp = ArgChunk(x.expr, chunk, axis, ravel)
+    # Create the ArgChunk expression for the initial chunk step.  The tree
+    # built below is sized from x's advertised block grid (its depth is fixed
+    # here, at construction), so pin that grid: a rewrite of x onto another
+    # layout (e.g. a native sliding-window reduction keeping its input's finer
+    # blocks) would otherwise leave the tree a level short and the result
+    # would silently be the arg-reduction of the first block group only.
+    tmp = ArgChunk(x.freeze_chunks().expr, chunk, axis, ravel)
 
     # Determine dtype
     dtype = np.argmin(asarray_safe([1], like=meta_from_array(x)))
